@@ -24,7 +24,8 @@ ALPH = ['a', 'b', 'Z', '0', ' ', '\n', '\r', '\r\n', '#', '.', ':', '=',
         'ੁ䄀', '਍', 'ഊ', '†', ' ', '\t', '  ',
         '    ', '\x0b', '\x0c', '\x1c', '\x85', ' ', '日本',
         'Ж', '\\ No newline at end of file\n', '{', '}', '"', '%',
-        '€']
+        '€', 'e\u0301', '\u2126', 'A\u030a', '\u1100\u1161', '\ufb01',
+        '\u00a0', '\u200b', '\u2028', '\u2029', '\x1d', '\x1e']
 
 _ENC_OK = {}
 
@@ -351,6 +352,16 @@ def gen_foreign(rng, pool=None, shuffle=True, blanks=True, crlf=None,
             else:
                 raw = bytes(rng.choice(DIFF_BYTES)
                             for _ in range(rng.randint(1, 12)))
+
+            if big and eff is None and rng.chance(0.5):
+                # a large diff (beyond any buffering threshold) whose lines
+                # contain lone LFs (dos) or lone CRs (unix)
+                n = rng.choice([700, 9400, 12000])
+
+                if kind == 'dos':
+                    raw = b'ab\r\n' + b'cd\nef\r\n' * n
+                else:
+                    raw = b'ab\n' + b'cd\ref\n' * n
 
             if rng.chance(0.3):
                 opts.append(('type', rng.choice(['text', 'binary'])))
